@@ -458,6 +458,33 @@ func newWalletBatch(b *Batch, fr *core.Rand, thorough bool) {
 		b.Fixed = append(b.Fixed, mk(fr, 4, uint8(k%3), true, "entropy", entropyPlan(fr, "error", k)))
 		b.Fixed = append(b.Fixed, &Episode{Kind: "wallet-dil", Profile: "c09-entropy", Create: "entropy", Entropy: entropyPlan(fr, "error", k), NSigs: 1, Forms: dForms, DrainSeed: fr.Uint64()})
 	}
+	// mnemonic word coverage: every 12-bit word index occurs in a recovered
+	// secret, for the 48-byte (Dilithium) and the 51-byte (XMSS) codec paths
+	wordSeed := func(first int, nwords int) []byte {
+		out := make([]byte, nwords*3/2)
+		for w := 0; w < nwords; w++ {
+			v := (first + w) % 4096
+			bit := w * 12
+			if bit%8 == 0 {
+				out[bit/8] = byte(v >> 4)
+				out[bit/8+1] |= byte(v&0x0f) << 4
+			} else {
+				out[bit/8] |= byte(v >> 8)
+				out[bit/8+1] = byte(v)
+			}
+		}
+		return out
+	}
+	for first := 0; first < 4096; first += 32 {
+		b.Fixed = append(b.Fixed, &Episode{Kind: "wallet-dil", Profile: "c09-words", Create: "seed", SeedHex: hex.EncodeToString(wordSeed(first, 32)), NSigs: 1, Forms: dForms, DrainSeed: fr.Uint64()})
+	}
+	for first := 0; first < 4096; first += 30 {
+		// the XMSS mnemonic covers descriptor || seed: words 2.. come from the seed
+		// (the seed starts at byte 3 = bit 24 = word 2); a shifted seed covers them
+		ws := wordSeed(first, 32)
+		ep := &Episode{Kind: "wallet-xmss", Profile: "c09-words", Height: 4, Hash: uint8(first % 3), Stub: true, SeedHex: hex.EncodeToString(ws), Create: "seed", NSigs: 1, Forms: []string{"mnemonic", "ext"}, DrainSeed: fr.Uint64()}
+		b.Fixed = append(b.Fixed, ep)
+	}
 	b.Random = 260
 	if thorough {
 		b.Random = 5000
